@@ -197,9 +197,14 @@ def mon_first_free_name(steps, meta):
                 d, name = p.rsplit("/", 1)
                 # name = version[-k]ext where ext is the extension of the store directory's name
                 import re
-                m = re.match(r"^(v\d+)(?:-(\d+))?(.*)$", name)
+                vre = re.escape(meta.get("vpat", "v%s")).replace("%s", r"\d+").replace("\\%s", r"\d+")
+                m = re.match(r"^(" + vre + r")(?:-(\d+))?(.*)$", name)
                 if not m:
+                    if "vpat" in meta:
+                        return "new version %s is not named <version>[-k]<extension> for the version pattern %s" % (p, meta["vpat"])
                     continue
+                if "ext" in meta and m.group(3) != meta["ext"]:
+                    return "new version %s does not end with the extension %r of its file" % (p, meta["ext"])
                 k = int(m.group(2) or 0)
                 for j in range(k):
                     cand = "%s/%s%s%s" % (d, m.group(1), "-%d" % j if j else "", m.group(3))
@@ -477,6 +482,11 @@ def enumerate_cases(exe_impl, tier, kind, seed=1, only=None):
                 cases.append(("%s@%d" % (sc["name"], k), script, {"scenario": sc["name"], "k": k, "call": cname, "callline": cline, "phase": phases[k]}))
             else:
                 errs = PLAUSIBLE.get(cname, ["EIO"])
+                if cname == "open" and not cline.startswith("open $/w/"):
+                    # ENOENT is the expected condition "source deleted" at the open of the source; injected at the open
+                    # of klunok's own files it would mean "there is no such file" (e.g. no remembered position), which
+                    # is a different environment, not a failing call
+                    errs = [e for e in errs if e != "ENOENT"]
                 if tier == "quick" and len(errs) > 2:
                     errs = rng.sample(errs, 2)
                 for e in errs:
@@ -552,13 +562,42 @@ def mon_queue_form(steps, meta):
     return None
 
 
+def _expand_stamp(pat, clock):
+    return pat.replace("%%", "\0").replace("%s", str(clock)).replace("\0", "%")
+
+
 def mon_journal(steps, meta):
-    """C19: journals only grow by whole well-formed lines; stored/deleted labels match what happened"""
+    """C19: journals only grow by whole well-formed lines; stored/deleted labels match what happened; every line is
+    stamped by the timestamp pattern of the configuration in force (meta 'stamps')"""
     prev = None
     ops_between = []
+    pats = {}           # cfg id -> journal timestamp pattern
+    bound = None
+    inforce = None
+    clock = wc.CLOCK0
+    stamps = set()      # stamps the lines since the last dump may carry
+    wrong = set()       # stamps of configurations NOT in force
     for st in steps:
+        if st.op == "cfg":
+            for t in st.tok[2:]:
+                if t.startswith("jpat="):
+                    pats[st.tok[1]] = unhexs(t[5:])
+        elif st.op == "cfgbind":
+            bound = st.tok[1]
+        elif st.op == "tick":
+            clock += int(st.tok[1])
         if st.op in HANDLER_OPS:
             ops_between.append(st)
+            if st.op == "start" and st.result == "ok":
+                inforce = st.tok[1]
+            if inforce in pats:
+                # an operation is stamped by the pattern in force when it began (a reload's own event included)
+                stamps.add(_expand_stamp(pats[inforce], clock))
+                for c, p in pats.items():
+                    if p != pats[inforce]:
+                        wrong.add(_expand_stamp(p, clock))
+            if st.op == "write" and st.result == "ok" and len(st.tok) > 2 and unhexs(st.tok[2]) == CANON_ROOT + "/w/cfg/klunok.lua" and bound in pats:
+                inforce = bound
         if st.dump is None:
             continue
         cur = st.dump
@@ -584,8 +623,14 @@ def mon_journal(steps, meta):
                 # [ts] [label] [pid] path
                 if not (1 <= len(f) <= 4) or f[-1] == "":
                     return "malformed journal line %r" % l
+                if meta.get("stamps") and stamps:
+                    good = [x for x in stamps if (x == "" or l.startswith(x + "\t"))]
+                    bad = [x for x in wrong - stamps if x != "" and l.startswith(x + "\t") and not any(g != "" for g in good)]
+                    if not good or (bad and "" in stamps and all(g == "" for g in good)):
+                        return "journal line %r is not stamped by the timestamp pattern in force (expected one of %s)" % (l, sorted(stamps))
                 if len(f) >= 2 and not any(x in LABELS for x in f[:-1]) and meta.get("labels_all", True):
                     return "journal line without a configured label: %r" % l
+            stamps, wrong = set(), set()
             if st.tag_same_env and meta.get("journal_counts", True) and not any(o.result in ("error", "crashed", None) for o in ops_between):
                 nw = sum(1 for o in ops_between if o.op == "write")
                 nx = sum(1 for o in ops_between if o.op == "exec")
@@ -1086,11 +1131,11 @@ def mon_no_error(steps, meta):
         return None
     if any(st.line.startswith("cfgbind invalid") for st in steps):
         return None
-    blocked = False     # the scenario made the project store unusable (stray file): an error is the right answer
+    blocked = False     # the scenario made the (project) store unusable (stray file): an error is the right answer
     for st in steps:
-        if st.op == "put" and unhexs(st.tok[1]) == CANON_ROOT + "/k/projects":
+        if st.op == "put" and unhexs(st.tok[1]) in (CANON_ROOT + "/k/projects", CANON_ROOT + "/k/store"):
             blocked = True
-        if st.op == "rm" and unhexs(st.tok[1]) == CANON_ROOT + "/k/projects":
+        if st.op == "rm" and unhexs(st.tok[1]) in (CANON_ROOT + "/k/projects", CANON_ROOT + "/k/store"):
             blocked = False
         if st.op in HANDLER_OPS and st.result == "error" and not blocked:
             msgs = [unhexs(t.split(":", 1)[1]) for t in (st.trace or "").split()[1:]]
@@ -1099,3 +1144,31 @@ def mon_no_error(steps, meta):
 
 
 MONITORS["no_error"] = mon_no_error
+
+
+def mon_position_not_ahead(steps, meta):
+    """C03/C08: in every state left on disk the remembered position of a history path is not ahead of the bytes stored
+    for it (a position ahead of the store means appended bytes will be skipped)"""
+    for st in steps:
+        if st.dump is None:
+            continue
+        for rel in HISTORY_RELS:
+            o = st.dump.get("/k/var/offsets/" + rel)
+            if o is None or o[0] != "file":
+                continue
+            c = content(o)
+            if c is None:
+                continue
+            digits = ""
+            for ch in c:
+                if not ch.isdigit():
+                    break
+                digits += ch
+            pos = int(digits) if digits else 0
+            stored = sum(int(e[2]) for p, e in st.dump.items() if p.startswith("/k/store/%s/" % rel) and e[0] == "file")
+            if pos > stored:
+                return "the remembered position of %s is %d but only %d bytes of it are in the store" % (rel, pos, stored)
+    return None
+
+
+MONITORS["position_not_ahead"] = mon_position_not_ahead
